@@ -426,7 +426,8 @@ def _coap_batch(loop, p):
     c2a, a2c = det_bytes(seed, "c17-coap-c2a"), det_bytes(seed, "c17-coap-a2c")
     acc = _CoapAccessory(coappdu.Session(c2a, a2c), script)
     conn = CoAPHomeKitConnection(None, "::1", 5683)
-    conn.info = _coap_db(iids)
+    unknown = p.get("unknown")  # index of a requested id the controller's cached database does not contain (a stale entity)
+    conn.info = _coap_db([i for k, i in enumerate(iids) if k != unknown])
     conn.enc_ctx = EncryptionContext(
         ChaCha20Poly1305(a2c), ChaCha20Poly1305(c2a), ChaCha20Poly1305(det_bytes(seed, "c17-coap-ev")), "coap://[::1]:5683/", acc
     )
@@ -445,8 +446,29 @@ def _coap_batch(loop, p):
     except Exception as e:  # noqa: BLE001
         if acc.problems:
             return [(s, {**p, **d}) for s, d in acc.problems]
-        return [(f"coap:{op}:raises:{type(e).__name__}", {**p, "err": str(e)[:200]})]
+        if unknown is not None:
+            res = None  # failing the call is one way to deal with an id nobody knows; what (if anything) went out is judged below
+        else:
+            return [(f"coap:{op}:raises:{type(e).__name__}", {**p, "err": str(e)[:200]})]
     out = [(s, {**p, **d}) for s, d in acc.problems]
+    if unknown is not None:
+        # whatever the controller does about the unknown id, nothing it sends may pair one characteristic's id with another one's value, and
+        # no characteristic that was not sent may be presented as written
+        want_body = {iid: (tlv8.encode([(1, wvals[i])]) if op == "write" else None) for i, iid in enumerate(iids)}
+        sent = set()
+        for reqs in acc.requests:
+            for r in reqs:
+                sent.add(r[3])
+                if r[3] not in want_body:
+                    out.append(("coap:request-for-an-id-nobody-asked-for", {**p, "iid": r[3]}))
+                elif op == "write" and r[4] != want_body[r[3]]:
+                    other = [i for i, b in want_body.items() if b == r[4]]
+                    out.append(("coap:write-carries-another-characteristics-value", {**p, "iid": r[3], "value_meant_for": other}))
+        if isinstance(res, dict) and op == "write":
+            for i, iid in enumerate(iids):
+                if iid not in sent and (1, iid) not in res:
+                    out.append(("coap:unsent-write-presented-as-written", {**p, "iid": iid}))
+        return out[:3]
     # ---- what the accessory saw
     if len(acc.requests) != 1 or len(acc.requests[0]) != n:
         out.append(("coap:request-item-count-differs", {**p, "got": [len(r) for r in acc.requests]}))
@@ -680,6 +702,10 @@ def run(ctx):
             bat.append(dict(base, op=op))
         if len(vec) <= 3 and lens == "A" and wt == "next" and wc == 0:
             bat.append(dict(base, op="read", rev=True))
+            if all(x.startswith("ok") for x in vec) or len(vec) == 1:
+                for op in OPS:
+                    for u in range(len(vec)):
+                        bat.append(dict(base, op=op, unknown=u))
     work += _chunks("coap_decode", dec, 1500)
     work += _chunks("coap_batch", bat, 500)
     ctx.bounds["coap"] = dict(
